@@ -1,7 +1,324 @@
-import ArchSim.Model.Pipe
+/-
+C07 — retire times / cycle count follow the documented pipeline schedule.
+Property theorems only; helper lemmas are in `ArchSim/Lemmas/C07*.lean`.
+-/
+import ArchSim.Lemmas.C07Flat
+import ArchSim.Lemmas.C07LineStep
+import ArchSim.Lemmas.C07Ecall
+import ArchSim.Lemmas.C07SkelStep
+
 namespace ArchSim.Props.C07
-open ArchSim.Pipe
+open ArchSim ArchSim.Rv ArchSim.Pipe ArchSim.Lemmas.C07 ArchSim.Lemmas.C02Split ArchSim.Spec
+
 /-- With hazard detection switched off the ID stage never raises its stall signal. -/
 theorem idStall_off (rr : ArchSim.Rv.RegRead) (l1 l2 : Option Latch) : idStall false rr l1 l2 = false := by
   simp [idStall]
+
+/-! ### A. the cycle counter -/
+
+/-- Every five-stage step that raises no exception advances the cycle counter by exactly one, plus the
+    extra cycles of this cycle's instruction fetch (`fetchExtra`: 0 while stalled or with nothing at the
+    pc), plus the extra cycles of the MEM stage's memory access (`memExtra`: 0 for a bubble). -/
+theorem cycle_increment (p : PSt) (h : (step p).fault = none) :
+    (step p).p.st.cycles = p.st.cycles + 1 + fetchExtra p + memExtra p :=
+  step_cycles_ok p h
+
+/-- The same when the EX stage raises (the MEM stage does not run in that cycle): one plus the fetch. -/
+theorem cycle_increment_ex_fault (p : PSt) (h : (exO p).fault.isSome) :
+    (step p).p.st.cycles = p.st.cycles + 1 + fetchExtra p :=
+  step_cycles_exFault p h
+
+/-- The same when EX does not raise, whether or not the MEM stage then raises: one plus the fetch plus
+    the extra cycles of the (possibly faulting) memory access. -/
+theorem cycle_increment_mem_fault (p : PSt) (h : (exO p).fault = none) :
+    (step p).p.st.cycles = p.st.cycles + 1 + fetchExtra p + memExtra p :=
+  step_cycles_memFault p h
+
+/-- The fetch term is zero or the miss penalty of the instruction cache; without an instruction cache
+    it is zero. -/
+theorem fetch_extra_is_penalty (im : IMem) (pc : Int) :
+    (im.fetch pc).extra = 0 ∨ ∃ c, im.cache = some c ∧ (im.fetch pc).extra = c.penalty :=
+  fetch_extra_cases im pc
+
+/-- Unless EX is handed an ecall this cycle, the MEM term is the extra of `memory_access` on the
+    memory system of the start of the cycle. -/
+theorem mem_extra_start_of_cycle (p : PSt) (h : ∀ d, exInput p = some d → d.instr.op ≠ .ecall) :
+    memExtra p = maExtra p.st.mem (memInput p) := by
+  unfold memExtra; rw [exO_mem_nonEcall p h]
+
+/-- Without caches every five-stage step (faulting or not) adds exactly one cycle. -/
+theorem cycle_increment_no_cache (p : PSt) (m : Mem.Mem) (hm : p.st.mem = .flat m)
+    (hc : p.st.imem.cache = none) : (step p).p.st.cycles = p.st.cycles + 1 := by
+  rw [step_cycles, fetchExtra_none p hc]
+  unfold memExtraRun; rw [memExtra_flat p m hm]; simp
+
+/-- A single-cycle step adds one, plus the fetch extra, plus the extra of the instruction's counted data
+    access (`singleExtra`); the uncounted display re-read of a load adds nothing, also on a fault. -/
+theorem single_cycle_increment (s : St) : (singleStep s).st.cycles = s.cycles + 1 + singleExtra s :=
+  singleStep_cycles s
+
+/-- The uncounted re-read of a load never adds cycles (flat or cached, hit or miss). -/
+theorem uncounted_reread_free (ms : MemSys) (bits : Nat) (a : Int) : (ms.read bits a false).extra = 0 :=
+  read_uncounted_extra ms bits a
+
+/-- Without caches a single-cycle step adds exactly one cycle. -/
+theorem single_cycle_increment_no_cache (s : St) (m : Mem.Mem) (hm : s.mem = .flat m)
+    (hc : s.imem.cache = none) : (singleStep s).st.cycles = s.cycles + 1 := by
+  rw [singleStep_cycles, singleExtra_flat s m hm hc]
+
+/-! ### D. straight-line programs take n + 4 cycles -/
+
+/-- A straight-line program `prog` of `n ≤ 4096` plain instructions (register/immediate arithmetic,
+    shifts, lui/auipc) in which no instruction reads a non-x0 register written by one of the two
+    instructions before it (`HazardFree`), started at pc 0 in an empty pipeline with an uncached
+    instruction memory — any data memory system, any register contents, hazard detection on or off:
+    no step ever raises; after `k` cycles exactly `min n (k - 4)` instructions have retired
+    (instruction `m` retires in cycle `m + 5`) and `k` cycles were counted; the pipeline is done after
+    exactly `n + 4` steps and, for `n ≥ 1`, after no smaller number of steps. -/
+theorem straight_line_n_plus_4 (prog : List Instr) (hplain : ∀ i ∈ prog, PlainInstr i)
+    (hfree : HazardFree prog) (hlen : prog.length ≤ 4096) (p0 : PSt) (hstart : LineStart prog p0) :
+    (∀ k, (step (iter stepP k p0)).fault = none) ∧
+    (∀ k, (iter stepP k p0).st.instrs = p0.st.instrs + min prog.length (k - 4) ∧
+          (iter stepP k p0).st.cycles = p0.st.cycles + k ∧ (iter stepP k p0).stalled = none) ∧
+    isDone (iter stepP (prog.length + 4) p0) = true ∧
+    (iter stepP (prog.length + 4) p0).st.instrs = p0.st.instrs + prog.length ∧
+    (iter stepP (prog.length + 4) p0).st.cycles = p0.st.cycles + prog.length + 4 ∧
+    (0 < prog.length → ∀ k, k < prog.length + 4 → isDone (iter stepP k p0) = false) := by
+  have hrun := line_run prog hplain hfree hlen _ _ p0 (lineInv_start prog p0 hstart)
+  refine ⟨fun k => (hrun k).2, fun k => ⟨(hrun k).1.instrs, (hrun k).1.cycles, (hrun k).1.stl⟩,
+    ?_, ?_, ?_, ?_⟩
+  · exact (line_isDone prog _ _ _ _ (hrun _).1).2 (Or.inr (Nat.le_refl _))
+  · rw [(hrun _).1.instrs]; simp
+  · rw [(hrun _).1.cycles]; omega
+  · intro hn k hk
+    cases hd : isDone (iter stepP k p0) with
+    | false => rfl
+    | true => have := (line_isDone prog _ _ _ _ (hrun k).1).1 hd; omega
+
+/-- The empty program is done immediately. -/
+theorem straight_line_empty (p0 : PSt) (hstart : LineStart [] p0) : isDone p0 = true :=
+  (line_isDone [] _ _ 0 p0 (lineInv_start [] p0 hstart)).2 (Or.inl rfl)
+
+/-! ### E. closed forms of the schedule rules -/
+
+/-- ID raises its stall signal exactly when detection is on and its (non-empty) input reads a non-x0
+    register written by the instruction in ID/EX or EX/MEM (`idStall`). -/
+theorem interlock_condition (p : PSt) :
+    latchStall (nID p) = true ↔
+      ∃ f, idInput p = some f ∧ idStall p.hazard (accessRegs f.instr (sWB p).regs) p.l1 p.l2 = true :=
+  nID_stall_iff p
+
+/-- Decode interlock = exactly two bubbles. If an unstalled pipeline's ID raises its stall signal
+    (and EX does not), and the detection cycle and the two following cycles neither raise nor flush:
+    EX is fed a bubble in the two following cycles while ID keeps re-decoding the (flagged) consumer
+    and IF/ID keeps the instruction fetched in the detection cycle; after the third cycle the pipeline
+    is unstalled and EX's input is the consumer as decoded in the last stalled cycle — two cycles
+    later than without the hazard; the `stalls` counter went up by one. -/
+theorem interlock_two_bubbles (p : PSt) (hs : p.stalled = none)
+    (hid : latchStall (nID p) = true) (hex : latchStall (exO p).latch = false)
+    (q0 : NoFault p ∧ NoFlush p) (q1 : NoFault (step p).p ∧ NoFlush (step p).p)
+    (q2 : NoFault (step (step p).p).p ∧ NoFlush (step (step p).p).p) :
+    exInput (step p).p = none ∧ exInput (step (step p).p).p = none ∧
+    idInput (step p).p = setFlag p.l0 ∧ idInput (step (step p).p).p = setFlag p.l0 ∧
+    (step p).p.l0 = nIF p ∧ (step (step p).p).p.l0 = nIF p ∧ (step (step (step p).p).p).p.l0 = nIF p ∧
+    (step (step (step p).p).p).p.stalled = none ∧
+    exInput (step (step (step p).p).p).p = nID (step (step p).p).p ∧
+    (step (step (step p).p).p).p.st.stalls = p.st.stalls + 1 :=
+  interlock_three_cycles p hs hid hex q0 q1 q2
+
+/-- The detection cycle itself records an ID stall with two cycles to go. -/
+theorem interlock_recorded (p : PSt) (hf : NoFault p) (hfl : NoFlush p) (hs : p.stalled = none)
+    (hid : latchStall (nID p) = true) (hex : latchStall (exO p).latch = false) :
+    (step p).p.stalled = some { k := 1, rem := 2, p0 := setFlag p.l0, p1 := none } :=
+  (interlock_start p hf hfl hs hid hex).1
+
+/-- Control transfers are resolved in MEM: when MEM processes (without exception, and with no exiting
+    ecall in WB) a latch whose flush decision is `some a` — a taken branch, `jal`, `jalr` — then after
+    that cycle the three younger registers are empty, no stall is recorded, the pc is `a mod 2^32`,
+    the flush counter went up by one and the transfer sits in MEM/WB: three slots are squashed and
+    the next cycle fetches at the target. -/
+theorem redirect_three_slots (p : PSt) (e : Latch) (a : Int) (hin : memInput p = some e)
+    (hfl : memFlush e = some a) (hf : NoFault p) (hwb : latchFlush (nWB p) = none) :
+    (step p).p.l0 = none ∧ (step p).p.l1 = none ∧ (step p).p.l2 = none ∧ (step p).p.stalled = none ∧
+    (step p).p.st.pc = a % 4294967296 ∧ (step p).p.st.flushes = p.st.flushes + 1 ∧
+    ∃ rd, (step p).p.l3 = some (memLatch e rd) :=
+  redirect_from_mem p e a hin hfl hf hwb
+
+/-- Which latches redirect: `jal` to pc+imm, `jalr` to the ALU result, a branch whose comparison is
+    true to pc+imm; a branch whose comparison is false does not. -/
+theorem redirect_targets (e : Latch) :
+    (e.instr.op = .jal → memFlush e = e.pcImm) ∧ (e.instr.op = .jalr → memFlush e = e.result) ∧
+    (e.instr.op.ty = .b → e.cmp = some true → memFlush e = e.pcImm) ∧
+    (e.instr.op.ty = .b → e.cmp = some false → e.exitCode = none → memFlush e = none) :=
+  ⟨memFlush_jal e, memFlush_jalr e, memFlush_branch_taken e, memFlush_branch_not_taken e⟩
+
+/-- An unstalled pipeline fetches at the current pc: the latch IF produces carries that address. -/
+theorem fetch_at_pc (p : PSt) (hs : p.stalled = none) (x : Latch) (h : nIF p = some x) :
+    x.addr = p.st.pc :=
+  fetch_after_redirect p hs x h
+
+/-- ECALL drain. An unstalled EX holding an (unflagged) ecall while EX/MEM is occupied: the service does
+    not run in that cycle (EX leaves the state as WB left it) and a stall is counted; in the next
+    cycle MEM gets a bubble and the service again does not run; in the cycle after, MEM gets a bubble
+    and the service runs exactly then (`ecallRun`, on the state after that cycle's WB, all older
+    instructions having left MEM); if that cycle neither raises nor flushes (no exit) the pipeline is
+    unstalled afterwards with the finished ecall in EX/MEM. -/
+theorem ecall_drain (p : PSt) (d : Latch) (hs : p.stalled = none) (hl1 : p.l1 = some d)
+    (hop : d.instr.op = .ecall) (hfg : d.flagged = false) (hl2 : p.l2.isSome = true)
+    (q0 : NoFault p ∧ NoFlush p) (q1 : NoFault (step p).p ∧ NoFlush (step p).p) :
+    (exO p).st = sWB p ∧ (step p).p.st.stalls = p.st.stalls + 1 ∧
+    memInput (step p).p = none ∧ (exO (step p).p).st = sWB (step p).p ∧
+    memInput (step (step p).p).p = none ∧
+    exO (step (step p).p).p = ecallRun (sWB (step (step p).p).p) { d with flagged := true } ∧
+    (NoFault (step (step p).p).p → NoFlush (step (step p).p).p →
+      (step (step (step p).p).p).p.stalled = none ∧
+      (step (step (step p).p).p).p.l2 = (exO (step (step p).p).p).latch ∧
+      (step (step (step p).p).p).p.l0 = nIF p ∧
+      (step (step (step p).p).p).p.st.stalls = p.st.stalls + 1) :=
+  ecall_drain_two p d hs hl1 hop hfg hl2 q0 q1
+
+/-- Why `ecall_drain` assumes an occupied EX/MEM register: in a configuration with the ecall in EX,
+    EX/MEM empty and only MEM/WB occupied (one bubble between the ecall and the older instruction —
+    no such state arises from stalls, which insert two bubbles, or flushes, which insert three) the
+    two-cycle stall quantum outlasts the drain and the service runs in BOTH stalled cycles. -/
+theorem ecall_drain_needs_exmem (p : PSt) (d : Latch) (hs : p.stalled = none) (hl1 : p.l1 = some d)
+    (hop : d.instr.op = .ecall) (hfg : d.flagged = false) (hl2 : p.l2 = none)
+    (hl3 : p.l3.isSome = true)
+    (q0 : NoFault p ∧ NoFlush p) (q1 : NoFault (step p).p ∧ NoFlush (step p).p) :
+    exO (step p).p = ecallRun (sWB (step p).p) { d with flagged := true } ∧
+    exO (step (step p).p).p = ecallRun (sWB (step (step p).p).p) { d with flagged := true } :=
+  ecall_drain_l3_only p d hs hl1 hop hfg hl2 hl3 q0 q1
+
+/-! ### G. the pipeline simulates the data-free schedule skeleton -/
+
+/-- Erasing all data from the pipeline state (`erase`: per register only which instruction, its
+    address, the stall-preservation mark and the exit mark; plus pc, stall record and the data-free
+    counters) commutes with every cycle that raises no exception: the next skeleton is
+    `Skeleton.step` of the current skeleton and the cycle's outcomes (what IF delivered, EX's exit
+    decision, MEM's redirect decision). So slot occupancy, stalls, flushes and retirements follow the
+    documented rules encoded in `ArchSim/Spec/Skeleton.lean`, for every state, reachable or not. -/
+theorem pipe_sim_skeleton (p : PSt) (h : (step p).fault = none) :
+    erase (step p).p = Skeleton.step (erase p) (outcomes p) :=
+  erase_step p h
+
+/-- Along any exception-free run the skeleton of the pipeline is the skeleton run on the outcomes. -/
+theorem pipe_run_skeleton (p : PSt) (k : Nat)
+    (h : ∀ j, j < k → (step (iter (fun q => (step q).p) j p)).fault = none) :
+    erase (iter (fun q => (step q).p) k p) = skRun p k :=
+  erase_run p k h
+
+/-- `is_done` is a function of the skeleton and of whether an instruction exists at the pc. -/
+theorem is_done_skeleton (p : PSt) :
+    Pipe.isDone p = Skeleton.isDone (erase p) (p.st.imem.instrAt p.st.pc).isSome :=
+  erase_isDone p
+
+/-! ### Non-vacuity: a concrete three-instruction program -/
+
+/-- `addi x1,x0,5 ; slli x2,x0,3 ; lui x3,1` — plain and hazard-free. -/
+def demoProg : List Instr :=
+  [{ op := .addi, rd := 1, rs1 := 0, imm := 5 }, { op := .slli, rd := 2, rs1 := 0, imm := 3 },
+   { op := .lui, rd := 3, imm := 1 }]
+
+def demoSt : St :=
+  { regs := fun _ => 0, pc := 0, mem := .flat (Mem.Mem.empty Mem.riscvCfg),
+    imem := { prog := demoProg, cache := none }, output := "", exitCode := none, cycles := 0,
+    instrs := 0, branches := 0, procs := 0, stalls := 0, flushes := 0 }
+
+def demoP : PSt := PSt.init demoSt true
+
+example : (∀ i ∈ demoProg, PlainInstr i) := by decide
+example : HazardFree demoProg := by decide
+example : LineStart demoProg demoP := ⟨rfl, rfl, rfl, rfl, rfl, rfl, rfl, rfl⟩
+
+/-- Direct evaluation of the model agrees: 3 instructions, 7 cycles, done, x1 = 5, x2 = 0, x3 = 4096,
+    and not done after 6 cycles. -/
+example : (iter stepP 7 demoP).st.cycles = 7 ∧ (iter stepP 7 demoP).st.instrs = 3 ∧
+    isDone (iter stepP 7 demoP) = true ∧ isDone (iter stepP 6 demoP) = false ∧
+    (iter stepP 7 demoP).st.regs 1 = 5 ∧ (iter stepP 7 demoP).st.regs 3 = 4096 := by
+  decide
+
+/-- `cycle_increment` on the first cycle of the demo (no fault). -/
+example : (step demoP).fault = none ∧ (step demoP).p.st.cycles = 1 := by decide
+
+/-! ### Non-vacuity of the cycle equation with caches -/
+
+/-- `lw x1, 0(x5)` with x5 = 0x4000; instruction cache (LRU, 2 sets × 2 words, 1 way, penalty 10),
+    write-back data cache (LRU, penalty 7). -/
+def cachedSt : St :=
+  { demoSt with
+    regs := fun r => if r = 5 then 16384 else 0
+    imem := { prog := [{ op := .lw, rd := 1, rs1 := 5, imm := 0 }, { op := .addi, rd := 2, imm := 1 }],
+              cache := some (ICache.init true { idxBits := 1, blkBits := 1, assoc := 1 } 10) }
+    mem := .cached true (Cache.DSys.init (Cache.polOps true) false
+             { idxBits := 1, blkBits := 1, assoc := 1 } 7 (Mem.Mem.empty Mem.riscvCfg)) }
+
+def cachedAfter (k : Nat) : PSt := iter stepP k (PSt.init cachedSt true)
+
+/-- Cycle 1 misses in the instruction cache (+10), cycle 2 hits (+0), cycle 4 has the load in MEM
+    missing in the data cache (+7); the totals follow the equation. Single-cycle mode: 1 + 10 + 7. -/
+example : fetchExtra (cachedAfter 0) = 10 ∧ memExtra (cachedAfter 0) = 0 ∧
+    fetchExtra (cachedAfter 1) = 0 ∧ memExtra (cachedAfter 3) = 7 ∧
+    (cachedAfter 1).st.cycles = 11 ∧ (cachedAfter 2).st.cycles = 12 ∧ (cachedAfter 3).st.cycles = 13 ∧
+    (cachedAfter 4).st.cycles = 21 ∧ (step (cachedAfter 3)).fault = none ∧
+    singleExtra cachedSt = 17 ∧ (singleStep cachedSt).st.cycles = 18 ∧
+    (singleStep cachedSt).fault = none := by decide
+
+/-! ### Non-vacuity of the closed forms -/
+
+def stOf (prog : List Instr) : St := { demoSt with imem := { prog := prog, cache := none } }
+def after (prog : List Instr) (k : Nat) : PSt := iter stepP k (PSt.init (stOf prog) true)
+
+/-- E1: `addi x1,x0,5 ; add x2,x1,x1` — the hazard is detected in cycle 3. -/
+def depProg : List Instr :=
+  [{ op := .addi, rd := 1, rs1 := 0, imm := 5 }, { op := .add, rd := 2, rs1 := 1, rs2 := 1 }]
+
+example : (after depProg 2).stalled = none ∧ latchStall (nID (after depProg 2)) = true ∧
+    latchStall (exO (after depProg 2)).latch = false ∧
+    (NoFault (after depProg 2) ∧ NoFlush (after depProg 2)) ∧
+    (NoFault (after depProg 3) ∧ NoFlush (after depProg 3)) ∧
+    (NoFault (after depProg 4) ∧ NoFlush (after depProg 4)) := by decide
+
+/-- … and the run takes 2 + 4 + 2 cycles and computes x2 = 10. -/
+example : isDone (after depProg 8) = true ∧ isDone (after depProg 7) = false ∧
+    (after depProg 8).st.regs 2 = 10 ∧ (after depProg 8).st.stalls = 1 := by decide
+
+/-- E2: `jal x1, 8` at address 0 is in MEM in cycle 4. -/
+def jalProg : List Instr :=
+  [{ op := .jal, rd := 1, imm := 8 }, { op := .addi, rd := 5, imm := 1 },
+   { op := .addi, rd := 6, imm := 2 }, { op := .addi, rd := 7, imm := 3 }]
+
+example : (memInput (after jalProg 3)).map memFlush = some (some 8) ∧ NoFault (after jalProg 3) ∧
+    latchFlush (nWB (after jalProg 3)) = none ∧ (after jalProg 4).st.pc = 8 ∧
+    (after jalProg 4).l0 = none ∧ (after jalProg 4).st.flushes = 1 := by decide
+
+/-- E3: `addi a7,x0,1 ; addi a0,x0,7 ; ecall` — the ecall is in EX in cycle 5 behind an occupied
+    EX/MEM register (print-integer service). -/
+def ecallProg : List Instr :=
+  [{ op := .addi, rd := 17, imm := 1 }, { op := .addi, rd := 10, imm := 7 }, { op := .ecall }]
+
+example : (after ecallProg 4).stalled = none ∧
+    (after ecallProg 4).l1.map (fun d => (d.instr.op, d.flagged)) = some (.ecall, false) ∧
+    (after ecallProg 4).l2.isSome = true ∧
+    (NoFault (after ecallProg 4) ∧ NoFlush (after ecallProg 4)) ∧
+    (NoFault (after ecallProg 5) ∧ NoFlush (after ecallProg 5)) ∧
+    (NoFault (after ecallProg 6) ∧ NoFlush (after ecallProg 6)) ∧
+    (after ecallProg 7).stalled = none ∧ (after ecallProg 7).st.stalls = 1 ∧
+    isDone (after ecallProg 9) = true := by decide
+
+/-- The same with the exit service (`a7 = 93`, `a0 = 7`): the hypotheses up to the cycle in which the
+    service runs hold, and the exit code appears when the ecall retires. -/
+def exitProg : List Instr :=
+  [{ op := .addi, rd := 17, imm := 93 }, { op := .addi, rd := 10, imm := 7 }, { op := .ecall }]
+
+example : (NoFault (after exitProg 4) ∧ NoFlush (after exitProg 4)) ∧
+    (NoFault (after exitProg 5) ∧ NoFlush (after exitProg 5)) ∧
+    (after exitProg 8).st.exitCode = none ∧ (after exitProg 9).st.exitCode = some 7 := by decide
+
+/-- G on the interlock example: the skeleton after cycle 3 records the ID stall, and the erasure
+    equation holds by evaluation. -/
+example : (erase (after depProg 3)).stalled.map (fun s => (s.k, s.rem)) = some (1, 2) ∧
+    erase (after depProg 3) = Skeleton.step (erase (after depProg 2)) (outcomes (after depProg 2)) ∧
+    erase (after jalProg 4) = Skeleton.step (erase (after jalProg 3)) (outcomes (after jalProg 3)) := by
+  decide
+
 end ArchSim.Props.C07
